@@ -1,6 +1,7 @@
 ---- MODULE KeyEncodingMC ----
 EXTENDS KeyEncoding
 OutFileC == "key_states.json"
+NoOutC == ""
 OutSetsQ == { {}, {"o"}, {"o", "p"}, {"o,p"} }
 DepSetsQ == { {}, {"h1"}, {"h1", "h2"} }
 DepSetsS == { {}, {"h1"} }
